@@ -122,7 +122,7 @@ def gen_set(rnd, ctx, maxops):
     vk = rnd.choice(["VAll", "VInt", "VCInt", "VCInt", "VInc"])
     valid = list(range(1, 7)) + ([101, 103, 200, 201] if vk == "VAll" else [])
     init = rnd.sample(valid, rnd.randint(0, min(5, len(valid))))
-    universe = list(range(7)) + [100, 101, 102, 103, 104, 105, 200, 201]
+    universe = list(range(7)) + [100, 101, 102, 103, 104, 105, 200, 201, 202]
 
     def items(n=None):
         n = rnd.randint(0, 4) if n is None else n
@@ -167,6 +167,8 @@ def dop_term(op, prev=None):
     ps = lambda l: [(a, b) for a, b in l]  # noqa
     if k == "Assign":
         return C("DAssign", bool(op[1]), ps(prev if (len(op) > 3 and op[3] == "self") else op[2]))
+    if k == "UpdateKw":
+        return C("DUpdateKw", ps(op[1] or []), ps(op[2]))
     if k == "SetItem":
         t = C("D.SetItem", op[1], op[2])
     elif k == "DelItem":
@@ -198,13 +200,13 @@ def gen_dict(rnd, ctx, maxops):
     vk = rnd.choice(["VAll", "VInt", "VCInt", "VInc"])
     keys = list(range(1, 6))
     init = [[k, rnd.randint(1, 9)] for k in rnd.sample(keys, rnd.randint(0, 4))]
-    uni = list(range(6)) + [100, 101, 102, 103, 200, 201]
+    uni = list(range(6)) + [100, 101, 102, 103, 200, 201, 202]
 
     def key():
         return rnd.choice(uni[:6] if rnd.random() < 0.65 else uni)
 
     def value():
-        return rnd.choice(list(range(10)) if rnd.random() < 0.7 else [100, 105, 109, 200, 201])
+        return rnd.choice(list(range(10)) if rnd.random() < 0.7 else [100, 105, 109, 200, 201, 202])
 
     def pairs():
         return [[key(), value()] for _ in range(rnd.randint(0, 4))]
@@ -212,11 +214,16 @@ def gen_dict(rnd, ctx, maxops):
     ops = []
     for _ in range(rnd.randint(1, maxops)):
         k = rnd.choice(["SetItem", "SetItem", "SetItem", "DelItem", "Update", "Update", "Ior", "SetDefault",
-                        "SetDefault", "Pop", "Pop", "PopItem", "Clear", "Assign"])
+                        "SetDefault", "Pop", "Pop", "PopItem", "Clear", "Assign", "UpdateKw"])
         if k == "SetItem":
             op = [k, key(), value()]
         elif k == "DelItem":
             op = [k, key()]
+        elif k == "UpdateKw":
+            # the plain-dict idiom d.update(name=value): keyword names are the str atoms; TraitDict.update takes one
+            # positional argument only, so this is a TypeError that must leave the dict alone
+            kw = [[100 + j, value()] for j in rnd.sample(range(0, 6), rnd.randint(1, 2))]
+            op = [k, None if rnd.random() < 0.6 else pairs(), kw]
         elif k in ("Update", "Ior"):
             op = [k, rnd.random() < 0.5, pairs()]
             if op[1] and rnd.random() < 0.25:
@@ -224,7 +231,8 @@ def gen_dict(rnd, ctx, maxops):
         elif k == "SetDefault":
             op = [k, key(), value()]
         elif k == "Pop":
-            op = [k, key(), None if rnd.random() < 0.5 else value()]
+            d = None if rnd.random() < 0.5 else value()
+            op = [k, key(), 200 if d == 202 else d]     # Undefined is pop()'s own "no default" sentinel
         elif k in ("PopItem", "Clear"):
             op = [k]
         else:
@@ -240,7 +248,7 @@ def gen_dict(rnd, ctx, maxops):
 
 # ---------------------------------------------------------------- List(List(T))
 def raw_term(r):
-    if r is None:
+    if r is None or isinstance(r, str):       # not a list: an arbitrary object, a Cell instance, None
         return C("RBad")
     return C("RList", list(r["loose"] if isinstance(r, dict) else r))
 
@@ -283,29 +291,35 @@ def nested_term(case, obs):
 
 
 def gen_nested(rnd, ctx, maxops):
-    vk = rnd.choice(["VInt", "VCInt", "VCInt", "VAll", "VInc"])
+    vk = rnd.choice(["VInt", "VCInt", "VCInt", "VAll", "VInc", "VInst", "VInst"])
     ib = rnd.choice([(0, None), (0, None), (0, 2), (1, 3), (1, None), (2, 2), (0, 3)])
+    inst = vk == "VInst"          # List(List(Instance("Cell"))): items are a Cell (203) or None (200)
     ob = rnd.choice([(0, None), (0, None), (0, 2), (1, 3), (1, None), (0, 3)])
 
     def valid_inner():
         lo = ib[0]
         hi = ib[1] if ib[1] is not None else lo + 3
-        return [rnd.randint(0, 9) for _ in range(rnd.randint(lo, hi))]
+        return [rnd.choice([203, 203, 200]) if inst else rnd.randint(0, 9) for _ in range(rnd.randint(lo, hi))]
 
     def raw():
         r = rnd.random()
         if r < 0.6:
             return maybe_loose(rnd, valid_inner())
         if r < 0.7:
-            return None                                     # not a list
+            # not a list: some object; for Instance items also what the INNERMOST trait would accept
+            return rnd.choice(["cell", "nonevalue", None]) if inst else None
         if r < 0.85:
             v = valid_inner() or [1]
-            v[rnd.randrange(len(v))] = rnd.choice([200, 105, 201])      # invalid / convertible element
+            v[rnd.randrange(len(v))] = rnd.choice([5, 105, 202] if inst else [200, 105, 201, 202])  # invalid / convertible
             return maybe_loose(rnd, v)
-        return maybe_loose(rnd, [rnd.randint(0, 9) for _ in range(rnd.choice([0, 1, 2, 3, 4, 5]))])  # maybe illegal length
+        return maybe_loose(rnd, [(203 if inst else rnd.randint(0, 9)) for _ in range(rnd.choice([0, 1, 2, 3, 4, 5]))])
 
     n0 = rnd.randint(ob[0], ob[1] if ob[1] is not None else ob[0] + 3)
-    init = [[max(a, 1) for a in valid_inner()] for _ in range(n0)]
+    init = [[a if inst else max(a, 1) for a in valid_inner()] for _ in range(n0)]
+    if inst:
+        # the forward reference is resolved (and the traits fixed up) by the first validation of an item: start from
+        # the declared default [] so that this happens inside the history
+        ob, init, n0 = (0, ob[1]), [], 0
     n = n0
     ops = []
     for _ in range(rnd.randint(1, maxops)):
@@ -349,7 +363,10 @@ def gen_nested(rnd, ctx, maxops):
             n -= 1
         elif k == "NClear":
             n = 0
-    return dict(kind="nested", vk=vk, ib=list(ib), ob=list(ob), init=init, ops=ops)
+    case = dict(kind="nested", vk=vk, ib=list(ib), ob=list(ob), init=init, ops=ops)
+    if inst:
+        case["no_init"] = True
+    return case
 
 
 # ---------------------------------------------------------------- Dict(Str, List(Int)): law only
@@ -516,7 +533,7 @@ def gen_type(rnd, depth):
     """a container type: nesting of lists (with bounds) and dicts (int keys) over an atomic trait"""
     def go(d):
         if d == 0:
-            return ["A", rnd.choice(["VInt", "VCInt", "VCInt", "VInc"])]
+            return ["A", rnd.choice(["VInt", "VCInt", "VCInt", "VInc", "VInst"])]
         if rnd.random() < 0.65:
             mn, mx = rnd.choice([(0, None), (0, None), (0, 2), (1, 3), (1, None), (0, 3), (2, 2)])
             return ["L", go(d - 1), mn, mx]
@@ -531,7 +548,7 @@ def gen_deep(rnd, ctx, maxops):
 
     def valid(t):
         if t[0] == "A":
-            return rnd.randint(1, 9)
+            return rnd.choice([203, 203, 200]) if t[1] == "VInst" else rnd.randint(1, 9)
         if t[0] == "L":
             return [valid(t[1]) for _ in range(rnd.randint(t[2], t[3] if t[3] is not None else t[2] + 2))]
         return {"d": [[k, valid(t[2])] for k in rnd.sample(KEYS, rnd.randint(0, 3))]}
@@ -544,10 +561,10 @@ def gen_deep(rnd, ctx, maxops):
         r = rnd.random()
         if r < 0.6:
             return valid(t)
-        if r < 0.7:                                        # wrong kind
-            return rnd.choice([5, 200, 105]) if t[0] != "A" else [1]
+        if r < 0.7:                                        # wrong kind (also what an innermost Instance trait accepts)
+            return rnd.choice([5, 200, 105, 203, 203]) if t[0] != "A" else [1]
         if t[0] == "A":
-            return rnd.choice([200, 105, 201, 103])
+            return rnd.choice([5, 105, 201, 202] if t[1] == "VInst" else [200, 105, 201, 103, 202])
         if t[0] == "L":
             v = valid(t)
             if r < 0.85 and v:
@@ -559,6 +576,11 @@ def gen_deep(rnd, ctx, maxops):
         return v
 
     init = valid(t)
+    fwd = "'VInst'" in repr(t)
+    if fwd:      # start from the declared default (empty): the first validation of an item happens inside the history
+        if t[0] == "L":
+            t[2] = 0
+        init = [] if t[0] == "L" else {"d": []}
     ops = []
     for _ in range(rnd.randint(1, maxops)):
         if rnd.random() < 0.12:
@@ -577,7 +599,9 @@ def gen_deep(rnd, ctx, maxops):
             kinds = ["GAppend", "GAppend", "GExtend", "GInsert", "GSetInt", "GSetInt", "GSetSlice", "GDelInt", "GDelSlice",
                      "GPop", "GReverse", "GClear", "GImul"]
             if "'D'" not in repr(it):       # == of dicts ignores their order and < raises: not modelled
-                kinds += ["GRemove", "GRemove", "GSort", "GSort"]
+                kinds += ["GRemove", "GRemove"]
+                if "'VInst'" not in repr(it):   # Cell instances / None are not ordered (a failing sort may permute)
+                    kinds += ["GSort", "GSort"]
             k = rnd.choice(kinds)
             if k in ("GAppend", "GRemove"):
                 g = [k, raw(it) if k == "GAppend" or rnd.random() < 0.15 else valid(it)]
@@ -617,7 +641,10 @@ def gen_deep(rnd, ctx, maxops):
         ops.append(op)
         ctx.count("op:deep.depth%d.path%d.%s" % (depth, len(path), g[0]))
     ctx.count("deep-root:" + t[0])
-    return dict(kind="deep", type=t, init=init, ops=ops)
+    case = dict(kind="deep", type=t, init=init, ops=ops)
+    if fwd:
+        case["no_init"] = True
+    return case
 
 
 # ---------------------------------------------------------------- default values (first read)
@@ -768,6 +795,10 @@ def corpus():
     cs.append(dict(kind="list", vk="VInt", minlen=1, maxlen=3, init=[1, 2], init_mode="default", ops=[
         ["Append", 3], ["Append", 4], ["Pop", None], ["SetInt", 0, 200], ["Extend", None, "self"], ["Clear"],
         ["ImulQ", 1, 2, "float"], ["ImulQ", 5, 2, "float"], ["ImulQ", 3, 2, "fraction"], ["Imul", 0, "bool"]]))
+    cs.append(dict(kind="nested", vk="VInst", ib=[0, 2], ob=[0, None], init=[], no_init=True, ops=[
+        ["NAppend", [203]], ["NAppend", "cell"], ["NAppend", "nonevalue"], ["NAppend", [203, 200]], ["NSetInt", 0, "cell"],
+        ["NInsert", 0, "nonevalue"], ["NExtend", [[203], "cell"]], ["NAssign", [[203], [200]], "plain"],
+        ["NInner", 0, ["Append", 203]], ["NInner", 0, ["Append", 5]], ["NAppend", "cell"]]))
     L_ = lambda g: ["L", g]  # noqa
     D_ = lambda g: ["D", g]  # noqa
     cs.append(dict(kind="deep", type=ltype("VCInt", [[1, 2], [1, None], [0, 2]]), init=[[[1], []]], ops=[
